@@ -8,7 +8,7 @@ use proptest::prelude::*;
 use serde_json::{json, Value};
 use crate::{
     engine::{fingerprint, pick},
-    refs::{collapse_cr, has_token, is_help_request, ref_classify, ref_frame, ref_tokens, RArg, RefEditor},
+    refs::{collapse_cr, has_token, is_help_request, ref_classify, ref_complete, ref_frame, ref_tokens, Completion, RArg, RefEditor},
     screen::Screen,
     session::{effective, fails_parse, script_text, CmdSet, Config, EnumSet, GroupSet, Op, OutCall, RawSet, Sess, PROMPTS},
 };
@@ -27,6 +27,8 @@ pub struct Flags {
     /// C15
     pub flush: bool,
     pub help_on: bool,
+    /// C11: every Tab is judged by the completion model on the line and cursor observed just before it
+    pub complete: bool,
 }
 
 #[derive(Clone, Debug)]
@@ -374,6 +376,9 @@ fn do_key<S: CmdSet>(x: &mut Ctx<'_, S>, op: &Op, what: &str) -> Result<(), Fail
             Op::Up | Op::Down | Op::Tab => {
                 // recall and completion replace the line; their content is C10's / C11's business
                 let ev = x.s.editor();
+                if x.f.complete && matches!(op, Op::Tab) {
+                    judge_completion(x, &pre, &ev, what)?;
+                }
                 match ev.text() {
                     Some(t) => x.ed.set_with_cursor(t, ev.cursor.min(t.chars().count())),
                     None => return Err((format!("{}: line is well-formed UTF-8", what), format!("{:02x?}", ev.bytes))),
@@ -403,6 +408,47 @@ fn do_key<S: CmdSet>(x: &mut Ctx<'_, S>, op: &Op, what: &str) -> Result<(), Fail
                 _ => "edit",
             };
             x.stats.nt("C15", fingerprint(&(kind, &out)), || json!({"call": format!("process_byte ({})", kind), "sink_writes": wc, "bytes": lossy(&out)}));
+        }
+    }
+    Ok(())
+}
+
+/// C11 inside a session: what Tab did to the line observed just before it, whatever happened earlier in the session
+fn judge_completion<S: CmdSet>(x: &mut Ctx<'_, S>, pre: &crate::session::EditorView, post: &crate::session::EditorView, what: &str) -> Result<(), Fail> {
+    let (Some(line), Some(new)) = (pre.text(), post.text()) else {
+        return Err((format!("{}: line is well-formed UTF-8 before and after Tab", what), format!("{:02x?} -> {:02x?}", pre.bytes, post.bytes)));
+    };
+    let mut names = S::names();
+    let word = line.trim_matches(' ');
+    if x.f.help_on {
+        names.push("help".to_string());
+    } else if !word.is_empty() && "help".starts_with(word) {
+        // completion of prefixes of `help` without the help feature is left open
+        x.stats.skipped_unspecified += 1;
+        return Ok(());
+    }
+    let what = format!("{}: Tab on {:?} (cursor {}, {}-byte buffer) with names {:?}", what, line, pre.cursor, x.cfg.cmd_buf, names);
+    if new.len() > x.cfg.cmd_buf || !new.starts_with(line.trim_end_matches(' ')) || post.cursor > new.chars().count() {
+        return Err((format!("{}: result fits the buffer, keeps the typed non-blank text, cursor within the line", what), format!("{:?} cursor {}", new, post.cursor)));
+    }
+    match ref_complete(&names, line, pre.cursor, x.cfg.cmd_buf) {
+        Completion::Unchanged => {
+            if new != line || post.cursor != pre.cursor {
+                return Err((format!("{}: line and cursor unchanged", what), format!("{:?} cursor {}", new, post.cursor)));
+            }
+        }
+        Completion::Exactly(e) => {
+            if new != e {
+                return Err((format!("{}: line becomes {:?}", what, e), format!("{:?}", new)));
+            }
+            let fp = fingerprint(&("tab", line, pre.cursor, x.cfg.cmd_buf, x.s.calls()));
+            let (l, c) = (line.to_string(), pre.cursor);
+            x.stats.nt("C11", fp, || json!({"op": "Tab inside a session", "line": l, "cursor": c, "result": e}));
+        }
+        Completion::OneOf { allowed, or_unchanged } => {
+            if !(allowed.iter().any(|a| a == new) || (or_unchanged && new == line)) {
+                return Err((format!("{}: line becomes one of {:?}{}", what, allowed, if or_unchanged { " or stays unchanged" } else { "" }), format!("{:?}", new)));
+            }
         }
     }
     Ok(())
@@ -694,13 +740,13 @@ pub fn op_strategy(o: GenOpts) -> impl Strategy<Value = Op> {
     // letters, blanks, dashes, and width-1 characters whose encodings sit on the boundaries of each UTF-8 length
     // (lead bytes C2, DF, E0, E1, EF, F0, F4)
     let mut chars = vec![
-        'a', 'b', 'g', 'e', 't', 'x', 'h', 'l', 'p', 's', ' ', ' ', '-', '-', 'é', 'Ж', 'г', '₿', '𝄞', '1', '5', '¡', 'ߪ', 'ࠀ', 'ก', 'က', '\u{fffd}', '𐀀', '\u{10fffd}',
+        'a', 'b', 'g', 'e', 't', 'x', 'h', 'l', 'p', 's', ' ', ' ', '-', '-', 'é', 'Ж', 'г', '₿', '𝄞', '1', '5', '¡', 'ߪ', 'ࠀ', 'ก', 'က', '\u{fffd}', '𐀀', '\u{10fffd}', 'à', 'х', 'Р',
     ];
     if o.quotes {
         chars.extend(['"', '"', '\\']);
     }
     let texts = vec![
-        "get-led ", "get-adc", "help", "help ", "set ", "--verbose", " -v", " -h", " --help", "exit", "net up ", "эхо ", "go-to ", "hello", "--", " 1", "ge", "ex", "he", "-n 5 ", "-- -x", "с", "ст", "сто", "стар",
+        "get-led ", "get-adc", "help", "help ", "set ", "--verbose", " -v", " -h", " --help", "exit", "net up ", "эхо ", "go-to ", "hello", "--", " 1", "ge", "ex", "he", "-n 5 ", "-- -x", "с", "ст", "сто", "стар", "a", "at", "-- -h", "hello ", "secret-cmd",
     ];
     prop_oneof![
         40 => any::<u16>().prop_map(move |s| Op::Char(pick(&chars, s))),
